@@ -60,6 +60,11 @@ def gen_c16(tier, rng):
         for t in TIMES:
             add(b"EST5EDT," + d + t + b",M11.1.0")
             add(b"EST5EDT,M3.2.0," + d + t)
+    # digit runs at the limits of ParseInt's int accumulation, in every numeric position
+    from .gen_zone import EDGE_NUMS, FOOTERS
+    for f in FOOTERS:
+        if any(n in f for n in EDGE_NUMS):
+            add(f)
     # the F3 family explicitly
     for s in [b"STD5DST,M3.2.0", b"STD5DST4/3,M11.1.0", b"STD5DST/1", b"STD5DST", b"STD5DST4", b"STD5DST,", b"STD5DST,,",
               b"EST5EDT,M3,M11.1.0", b"EST5EDT,M3.2,M11.1.0", b"EST5EDT,M3.2.0,M11", b"EST5EDT,M3.2.0,M11.1",
